@@ -24,6 +24,10 @@ func genC20(r *Rng, n int, tier string, emit func(Case)) {
 			if strElems {
 				return eStr([]string{"a", "b", "Zed", "10", "9", "x y", "", "<i>"}[rr.Intn(8)])
 			}
+			if rr.Chance(1, 8) {
+				// numbers of six to nine digits (prices in cents, ids): printed, joined and compared digit for digit
+				return eNum([]string{"1000000", "1200000", "999999", "123456789", "5000000", "100000"}[rr.Intn(6)])
+			}
 			return eNum(strconv.Itoa(rr.Range(0, 30)))
 		}
 		elemData := func() interface{} {
